@@ -62,6 +62,12 @@ claim("C07", "model-based property testing of remember-cookie histories (rapid) 
       "marks the session half-authed (also for the presenting request: no full-auth route is passed), is replaced by a fresh cookie and dies in storage; anything else authenticates nobody and is deleted; cookies appear only when asked for.",
       TRUST)
 
+claim("C06", "model-based property testing of password-change histories (rapid) with a model password per account and bcrypt-equivalence classes",
+      WM + "password-change machine: recover start/end and programmatic UpdatePassword with old/new pairs that are equal, one byte apart, prefixes, 71/72/73/76 bytes, bcrypt-equivalent, NUL-containing, non-ASCII; "
+      "up to 4 browsers holding remember cookies; login-after-recovery on/off; remember loaded or not. Oracle: after an authorised change the stored value is a salted bcrypt hash verifying the new and not the old password, "
+      "the token is spent, the account's server-side remember set is empty, every other account and its tokens are untouched; every later /login outcome must equal the model password.",
+      TRUST)
+
 NOT_YET = "check not built yet in this round (claimed in DESIGN.md; will be claimed once its check is committed)"
 
 def main():
